@@ -326,7 +326,8 @@ def run_corpus(world, prop):
             run = json.load(f)
         res = exec_run(world, run)
         bad = [v for v in res['violations'] if match_finding(v, findings) is None]
-        out.append((path, bad))
+        known = [match_finding(v, findings)['id'] for v in res['violations'] if match_finding(v, findings) is not None]
+        out.append((path, bad, known))
     return out
 
 
@@ -348,9 +349,12 @@ def check(prop, tier, verif_seed, jobs=None, runs=None, budget=None):
 
     # 1. corpus
     corpus = run_corpus(world, prop)
-    for path, bad in corpus:
+    corpus_known = {}
+    for path, bad, known in corpus:
         if bad:
             violations_out.append((path, bad[0]))
+        for k in known:
+            corpus_known[k] = corpus_known.get(k, 0) + 1
 
     # 2. batch
     ndig = 32 if tier == 'quick' else 256
@@ -470,7 +474,7 @@ def check(prop, tier, verif_seed, jobs=None, runs=None, budget=None):
     known_lines = []
     for f in findings:
         if f['property'] == prop and f.get('status') == 'known':
-            n = agg['known'].get(f['id'], 0)
+            n = agg['known'].get(f['id'], 0) + corpus_known.get(f['id'], 0)
             known_lines.append("KNOWN-FINDING: property=%s %s (id=%s, matched %d times in this run)" % (prop, f['what'], f['id'], n))
     evidence = {
         'property_id': prop, 'tier': tier, 'seed': verif_seed, 'level': 'exploration',
@@ -494,7 +498,8 @@ def check(prop, tier, verif_seed, jobs=None, runs=None, budget=None):
             'reach_probes': dict(sorted(agg['probes'].items())),
             'line_reach': reach.summarize(world, agg['reach'], getattr(m, 'REACH_FILES', {}).get(prop)),
             'known_findings_matched': agg['known'],
-            'corpus_replayed': [os.path.basename(p) for p, _ in corpus],
+            'corpus_replayed': [os.path.basename(c[0]) for c in corpus],
+            'known_findings_matched_in_corpus': corpus_known,
             'determinism_selftest': {'runs_reexecuted_in_fresh_interpreter': det_n, 'identical': det_ok},
             'components': world.components(),
             'workers': jobs, 'run_timeouts': agg['timeouts'],
